@@ -682,6 +682,7 @@ func checkC04(c *Ctx) {
 	checkC04ZeroMove(c)
 	checkC04Round4(c)
 	checkC04Round5(c)
+	checkRound5Small(c, "C04")
 	checkC04SuggestedAgreement(c)
 
 	// ---- DisplayLine measures rows in columns (K7, explicit)
